@@ -111,6 +111,76 @@ func commitHook(fn *ssa.Function) (commit ssa.CallInstruction, ok bool) {
 	return nil, false
 }
 
+// hookPassesCommitError: in a commit hook, whenever the wrapped Commit returned a non-nil error the hook returns that
+// error (or one built from it) — returning anything else (nil, a captured variable) makes the transaction runner
+// report success for a transaction that was rolled back.
+func hookPassesCommitError(f *ssa.Function, commit ssa.CallInstruction) (bool, string) {
+	cv := commit.Value()
+	if cv == nil {
+		return false, "the wrapped Commit's result is discarded"
+	}
+	// blocks reachable while the commit error may be non-nil: everything after the commit except what lies behind
+	// the nil edge of a test of cv
+	nilOnly := map[*ssa.BasicBlock]bool{}
+	for _, b := range f.Blocks {
+		if len(b.Instrs) == 0 {
+			continue
+		}
+		iff, ok := b.Instrs[len(b.Instrs)-1].(*ssa.If)
+		if !ok {
+			continue
+		}
+		nc := normCond(iff.Cond, true)
+		bo, ok := nc.V.(*ssa.BinOp)
+		if !ok || !isNilConst(bo.Y) || bo.X != ssa.Value(cv) {
+			continue
+		}
+		nilEdge := 1
+		if (bo.Op == token.EQL) == nc.Pol {
+			nilEdge = 0
+		}
+		nb := b.Succs[nilEdge]
+		if len(nb.Preds) == 1 {
+			nilOnly[nb] = true
+		}
+	}
+	ok, why := true, ""
+	seen := map[*ssa.BasicBlock]bool{}
+	var walk func(b *ssa.BasicBlock)
+	walk = func(b *ssa.BasicBlock) {
+		if seen[b] || nilOnly[b] {
+			return
+		}
+		seen[b] = true
+		for _, in := range b.Instrs {
+			if ret, isRet := in.(*ssa.Return); isRet {
+				if len(ret.Results) == 0 {
+					ok, why = false, "the hook does not return the Commit error"
+					return
+				}
+				rv := retResult(ret, len(ret.Results)-1)
+				if !(rv == ssa.Value(cv) || dependsOnValue(rv, cv)) {
+					ok, why = false, "when the wrapped Commit fails the hook returns something else than that error (nil, or a variable captured from the enclosing function): the runner reports success although nothing was committed"
+				}
+			}
+		}
+		for _, s := range b.Succs {
+			// blocks dominated by a nil-only block stay excluded
+			skip := false
+			for nb := range nilOnly {
+				if nb != s && nb.Dominates(s) {
+					skip = true
+				}
+			}
+			if !skip {
+				walk(s)
+			}
+		}
+	}
+	walk(commit.Block())
+	return ok, why
+}
+
 // boundTarget: w is the synthetic bound-method wrapper of a method; returns that method.
 func boundTarget(w *ssa.Function) *ssa.Function {
 	if w == nil || !strings.HasPrefix(w.Synthetic, "bound method wrapper") {
@@ -189,6 +259,8 @@ func ruleC09_3(c *Ctx, r *Rep) {
 				}
 				hooks[f] = true
 				r.Check("C09.3", key, ci.Pos(), afterSuccessfulCommit(commit, in), "wake only after Commit returned nil", "the hook wakes waiters without checking that the wrapped Commit returned nil (or before calling it)")
+				okPass, whyPass := hookPassesCommitError(f, commit)
+				r.Check("C09.3", "C09.3:commit-error-passed-on@"+c.Key(f), commit.Pos(), okPass, "a failed Commit is reported by the hook", whyPass)
 			}
 		}
 	}
